@@ -159,3 +159,16 @@ def explain(ctx, res, tag):
                                              model=model, world=world_json(world), history=[repr(h) for h in hist[:k]])
             ctx.log("model/implementation disagreement at step", k - 1, hist[k - 1], "impl:", outs[k - 1], "model:", model[:300])
             return
+
+
+def unchanged_but_home(prev, dump, ui):
+    """True when the directory dump equals the previous one, possibly plus the requesting user's new empty home."""
+    if dump == prev:
+        return True
+    user = xh.USERS[ui]
+    if not user:
+        return False
+    home = (xh.USER_NAME[user],)
+    if any(p == home for p, *_ in prev):
+        return False
+    return dump == sorted(prev + [(home, "TNone", [], [])])
